@@ -849,3 +849,25 @@ def c13(ctx):
     rnd = ctx.path("cases-b.ndjson")
     vlib.harness(["gen", "metrics", ctx.seed, 4000 if q else 60000, rnd])
     vlib.exec_and_judge(ctx, "metrics", rnd, "Trace_Metrics", "B", sample_keys=keys)
+
+
+# ---------------------------------------------------------------------------
+@prop("C20", "dict", "Trace_Dict")
+def c20(ctx):
+    q = ctx.quick()
+    ml = 2 if q else 3
+    ctx.rule = ("MC: CountReduce.tla (W counting workers, bounded / rendezvous channel, reducer) for every schedule: each line counted "
+                "exactly once, termination; A: all corpora of up to %d lines from a 9-line pool (hyphenated words, repeats, empty lines) x "
+                "max_size in {None, 0, 1, 2, 5} x max_sequences in {None, 0, 1, 2} x {word, char-1, char-3} x num_threads in {0, 1, 2, 4} "
+                "on the real Dictionary::create, save+load, get_closest for 4 queries; B: random corpora up to 8 lines. "
+                "non-trivial = at least two distinct entries" % ml)
+    ctx.assumptions = ["lines are over space, x, y, z, '-', a-umlaut so that cleaning / NFKC / the word-part regex are unambiguous on the view",
+                       "thread schedules of the real counting stage are not controlled; the result must be valid for every thread count"]
+    count_reduce_mc(ctx, [(1, 3, 0), (2, 3, 2), (3, 4, 3)] if q else [(1, 4, 0), (2, 4, 2), (3, 4, 3), (4, 5, 4)])
+    cases, n = vlib.tlc_generate(ctx, "Gen_Dict", "CONSTANTS MaxLines = %d\nINIT Init\nNEXT Next\nCHECK_DEADLOCK FALSE\n" % ml, "cases-a.ndjson")
+    keys = ["text", "mode", "threads", "max_size", "max_seq", "items", "freq_sum", "closest"]
+    vlib.exec_and_judge(ctx, "dict", cases, "Trace_Dict", "A", sample_keys=keys, per_case_timeout_ms=20000)
+    ctx.exhaustive = True
+    rnd = ctx.path("cases-b.ndjson")
+    vlib.harness(["gen", "dict", ctx.seed, 1200 if q else 15000, rnd])
+    vlib.exec_and_judge(ctx, "dict", rnd, "Trace_Dict", "B", sample_keys=keys, per_case_timeout_ms=20000)
